@@ -326,6 +326,25 @@ func (b *TermBank) Quo(x, y *Term) *Term {
 	if x.IsConst() && y.IsConst() {
 		return b.Int(goQuo(x.k, y.k))
 	}
+	if y.IsConst() && y.k > 1 && x.lo >= 0 && (x.op == OpAdd || x.op == OpMul) {
+		// (k*X + c) / k = X + c/k for non-negative dividend, 0 <= c
+		l := &lin{coef: map[*Term]int64{}}
+		b.linOf(x, 1, l)
+		all := l.k >= 0
+		for _, c := range l.coef {
+			if c%y.k != 0 {
+				all = false
+				break
+			}
+		}
+		if all && len(l.coef) > 0 {
+			for a := range l.coef {
+				l.coef[a] /= y.k
+			}
+			l.k /= y.k
+			return b.fromLin(l)
+		}
+	}
 	lo, hi := -inf, inf
 	if y.IsConst() && y.k > 0 && x.lo > -inf && x.hi < inf {
 		lo, hi = x.lo/y.k, x.hi/y.k
